@@ -451,7 +451,7 @@ pub fn run(ctx: &Ctx) {
             judge(ns, op, &[&g[(r / n) as usize], &g[(r % n) as usize]])
         }))
     });
-    let stride = ctx.tier.pick(19, 1);
+    let stride = ctx.tier.pick(5, 1);
     ctx.indexed("ternary", TERNARY.len() as u64 * n * n * n, stride, |i| {
         Some(with_ns(|ns, g| {
             let op = TERNARY[(i / (n * n * n)) as usize];
@@ -459,7 +459,7 @@ pub fn run(ctx: &Ctx) {
             judge(ns, op, &[&g[(r / (n * n)) as usize], &g[((r / n) % n) as usize], &g[(r % n) as usize]])
         }))
     });
-    let cases = ctx.tier.pick(30_000, 1_500_000);
+    let cases = ctx.tier.pick(150_000, 1_500_000);
     ctx.random("random", cases, 24, |ch| random_case(ch));
 }
 
